@@ -117,8 +117,63 @@ def stream(rng, nfalse, tail, maxgarb):
     return bytes(out)
 
 
-def gen(rng, tier):
+BSIZES = (0, 16, 17, 20, 32, 188, 4096)
+BFRAGS = ("whole", 1, 2, 3, 5, 7, 16, 17, 47, "random")
+BTERMS = ("end", "eof-with-data", "err-with-data", "err-after")
+
+
+def bscript(rng, data, frag, term, empties=0.0):
+    n = len(data)
+    if frag == "whole":
+        chunks = [data] if n else []
+    elif frag == "random":
+        cuts = sorted(rng.randrange(n + 1) for _ in range(rng.randrange(1, 10))) if n else []
+        pts = [0] + cuts + [n]
+        chunks = [data[a:b] for a, b in zip(pts, pts[1:]) if b > a]
+    else:
+        chunks = [data[i:i + frag] for i in range(0, n, frag)]
+    sc = []
+    for c in chunks:
+        while empties and rng.random() < empties:
+            sc.append((b"", 0))
+        sc.append((c, 0))
+    terr = 60 if term.startswith("err") else 50
+    if term in ("eof-with-data", "err-with-data") and sc:
+        sc[-1] = (sc[-1][0], terr)
+    elif term != "end" or terr == 60:
+        sc.append((b"", terr))
+    return sc
+
+
+def mkb(sc, size, kind, decides=True):
+    data = b"".join(c for c, _ in sc)
+    line = "io.syncb [ %s ] %d" % (" ".join("[ %s %d ]" % (hx(c), e) for c, e in sc), size)
+    th = "C16_sync_over_bufio"
+    return Case(line, kind=kind, decides=decides, nontrivial=decides and SYNC in data, theorem=th,
+                proj=proj if decides else None)
+
+
+def gen_bufio(rng, tier):
+    """Sync over the MODEL of bufio.Reader vs the real bufio.Reader, same read script"""
     out = []
+    tails = ["packet", "none", "cut1", "cut2", "cut3", "hdronly"]
+    n = 700 if tier == "quick" else 30000
+    for k in range(n):
+        data = stream(rng, rng.randrange(0, 5), rng.choice(tails), rng.choice([0, 1, 3, 10, 40, 200]))
+        frag = rng.choice(BFRAGS); term = rng.choice(BTERMS); size = rng.choice(BSIZES)
+        out.append(mkb(bscript(rng, data, frag, term), size, "bufio-%s" % (frag if isinstance(frag, str) else "n")))
+        if k % 5 == 0:
+            # zero-length reads ((0, nil) results) are outside the refinement theorem's hypothesis: fidelity
+            out.append(mkb(bscript(rng, data, frag, term, empties=0.3), size, "fidelity-bufio-empty-reads", decides=False))
+    # io.ErrNoProgress after 100 consecutive empty reads
+    for m in (99, 100, 101):
+        sc = [(b"\x11\x22", 0)] + [(b"", 0)] * m + [(bytes([SYNC, 0, 0, 0x10]) + bytes(184), 0)]
+        out.append(mkb(sc, 16, "fidelity-bufio-noprogress", decides=False))
+    return out
+
+
+def gen(rng, tier):
+    out = gen_bufio(rng, tier)
     # 1. complete enumeration: header classes x offset x number of false syncs, smallest buffers, every mode
     pids = [0, 3, 4, 5, 15, 16, 0x1fff]
     for first in (SYNC, 0x46):
@@ -173,12 +228,35 @@ def gen(rng, tier):
     return out
 
 
+def _bparts(c):
+    v = parse_val("[" + c.line.partition(" ")[2] + "]")
+    return [(bytes(ch), e) for ch, e in v[0]], v[1]
+
+
 def _parts(c):
     f = c.line.split()
     return bytes.fromhex(f[1][1:]), int(f[2]), int(f[3]), int(f[4])
 
 
+def shrink_b(c):
+    sc, size = _bparts(c)
+    for i in range(min(len(sc), 40)):
+        yield mkb(sc[:i] + sc[i + 1:], size, c.kind, c.decides)
+    for i in range(min(len(sc) - 1, 40)):
+        if sc[i][1] == 0:
+            yield mkb(sc[:i] + [(sc[i][0] + sc[i + 1][0], sc[i + 1][1])] + sc[i + 2:], size, c.kind, c.decides)
+    for i in range(min(len(sc), 40)):
+        if len(sc[i][0]) > 1:
+            yield mkb(sc[:i] + [(sc[i][0][1:], sc[i][1])] + sc[i + 1:], size, c.kind, c.decides)
+            yield mkb(sc[:i] + [(sc[i][0][:-1], sc[i][1])] + sc[i + 1:], size, c.kind, c.decides)
+    if size != 16:
+        yield mkb(sc, 16, c.kind, c.decides)
+
+
 def shrink(c):
+    if c.line.startswith("io.syncb"):
+        yield from shrink_b(c)
+        return
     data, terr, size, mode = _parts(c)
     cands = []
     if mode != 2:
@@ -202,6 +280,11 @@ def shrink(c):
 
 
 def search(c, rng):
+    if c.line.startswith("io.syncb"):
+        for c2 in gen_bufio(rng, "quick")[:300]:
+            if c2.decides:
+                yield c2
+        return
     data, terr, size, mode = _parts(c)
     for nf in range(0, 4):
         for m in MODES:
@@ -210,6 +293,9 @@ def search(c, rng):
 
 
 def case_of_line(line, kind):
+    if line.startswith("io.syncb"):
+        sc, size = _bparts(Case(line))
+        return mkb(sc, size, kind or "replay", decides=not (kind or "").startswith("fidelity"))
     f = line.split()
     return mk(bytes.fromhex(f[1][1:]), int(f[2]), int(f[3]), int(f[4]), kind or "replay",
               decides=not kind.startswith("fidelity"))
